@@ -999,6 +999,12 @@ class LuaASTEchoWriter(BaseLuaWriter):
             yield self._get_name(node, node.methodname)
 
     def _walk_FunctionArgs(self, node):
+        if (getattr(node, 'short_print', False) and
+                not self._args.get('ignore_tokens')):
+            # The arguments of the "?" print shorthand have no parentheses.
+            for t in self._walk(node.explist):
+                yield t
+            return
         yield self._get_text(node, b'(')
         self._indent += 1
         if node.explist is not None:
